@@ -84,6 +84,19 @@ def plain(prog):
                 _occ(occs, it['x'], 'use', ln, len(s))
                 s += it['x'] + ')(' + ', '.join('0' for _ in it['params']) + ')'
                 lines.append(s)
+            elif k == 'lamdef':
+                # name = lambda params: x      (a lambda that is called later)
+                _occ(occs, it['name'], 'bind', ln, len(pad))
+                s = pad + it['name'] + ' = lambda '
+                for i, p in enumerate(it['params']):
+                    if i:
+                        s += ', '
+                    _occ(occs, p, 'param', ln, len(s))
+                    s += p
+                s += ': '
+                _occ(occs, it['x'], 'use', ln, len(s))
+                s += it['x']
+                lines.append(s)
             elif k == 'comp':
                 s = pad + '['
                 _occ(occs, it['x'], 'use', ln, len(s))
@@ -158,6 +171,18 @@ def executable(prog):
                 lines.append('%stry: (lambda %s: _u(%d, %s))(%s)'
                              % (pad, ', '.join(it['params']), i, it['x'], args))
                 lines.append('%sexcept NameError: _u(%d, _UNBOUND)' % (pad, i))
+            elif k == 'lamdef':
+                bi = nid()
+                pids = [nid() for _ in it['params']]
+                i = nid()
+                # parameters are rebound to their own tokens through default-free wrappers
+                ps = ', '.join(it['params'])
+                toks = ', '.join('_tok(%s, %r, %d)' % (p_, p_, pi) for p_, pi in zip(it['params'], pids))
+                # the inner lambda only re-labels the arguments with the parameter occurrences; a
+                # nested function scope is transparent for the lookup of every other name
+                lines.append('%s%s = lambda %s: (lambda %s: _u(%d, %s))(%s)'
+                             % (pad, it['name'], ps, ps, i, it['x'], toks))
+                lines.append('%s%s.__occ__ = %d' % (pad, it['name'], bi))
             elif k == 'comp':
                 i = nid()
                 vi = nid()
@@ -196,12 +221,17 @@ def run_executable(prog, occs):
     def _c(i, v):
         _u(i, v)
         return v
+    def _tok(v, name, pid):
+        if isinstance(v, tuple) and v and v[0] == '<arg>':
+            return (name, pid)
+        return v
+
     def _abort(i):
         # an assignment whose right-hand side is unbound: the real program stops here with
         # NameError; the binding does not happen.  The program is not an executable program.
         seen.setdefault(i, set()).add(-1)
         raise _Abort()
-    g = {'_u': _u, '_c': _c, '_abort': _abort, '_UNBOUND': UNBOUND, '__name__': '__scopes__'}
+    g = {'_u': _u, '_c': _c, '_tok': _tok, '_abort': _abort, '_UNBOUND': UNBOUND, '__name__': '__scopes__'}
     import sys
     old = sys.getrecursionlimit()
     sys.setrecursionlimit(200)
@@ -259,8 +289,14 @@ def gen_items(rng, depth, kind, budget, allow):
                 body = gen_items(rng, depth + 1, 'class', budget, allow)
                 items.append({'k': 'def', 'kind': 'class', 'name': name, 'params': [], 'body': body})
         elif r < 0.95 and 'lambda' in allow:
-            items.append({'k': 'lambda', 'params': rng.sample(NAMES, rng.choice([0, 1])),
-                          'x': rng.choice(NAMES)})
+            if rng.random() < 0.5:
+                items.append({'k': 'lambda', 'params': rng.sample(NAMES, rng.choice([0, 1])),
+                              'x': rng.choice(NAMES)})
+            else:
+                name = rng.choice(FNAMES)
+                params = rng.sample(NAMES, rng.choice([0, 0, 1]))
+                items.append({'k': 'lamdef', 'name': name, 'params': params, 'x': rng.choice(NAMES)})
+                pending.append({'k': 'call', 'x': name, 'n': len(params)})
         elif 'comp' in allow:
             items.append({'k': 'comp', 'var': rng.choice(NAMES), 'x': rng.choice(NAMES)})
         else:
@@ -365,6 +401,13 @@ def flat(prog):
                     occs.append([nm(p), ROLES['param'], t, len(occs)])
                 walk(it['body'], t)
             elif k == 'lambda':
+                scopes.append([KINDS['lambda'], s, -1])
+                t = len(scopes) - 1
+                for p in it['params']:
+                    occs.append([nm(p), ROLES['param'], t, len(occs)])
+                occs.append([nm(it['x']), ROLES['use'], t, len(occs)])
+            elif k == 'lamdef':
+                occs.append([nm(it['name']), ROLES['bind'], s, len(occs)])
                 scopes.append([KINDS['lambda'], s, -1])
                 t = len(scopes) - 1
                 for p in it['params']:
